@@ -186,6 +186,17 @@ class Ctx:
         idx = sorted(self.rng.sample(range(len(cases)), n))
         return [cases[i] for i in idx]
 
+    def subsample_by(self, cases, key, cap):
+        """Stratified quick-tier sample: at most `cap` cases of every stratum key(case), so that small families of the domain are taken whole
+        instead of being thinned in proportion to the big ones."""
+        groups = {}
+        for c in cases:
+            groups.setdefault(key(c), []).append(c)
+        out = []
+        for k in sorted(groups, key=str):
+            out.extend(self.subsample(groups[k], cap))
+        return out
+
     # ------------------------------------------------------------- verdicts
     def record(self, case, verdict, *, op="", tags=(), nontrivial=True, sample=None, conformance=None):
         """Register the verdict TLC printed for one executed case."""
